@@ -442,7 +442,7 @@ func (v *Vue) mergeStyles(staticStyle, boundStyle string) string {
 func parseStyleList(style string) ([]string, map[string]string) {
 	vals := make(map[string]string)
 	var keys []string
-	for _, part := range strings.Split(style, ";") {
+	for _, part := range splitStyleDeclarations(style) {
 		part = strings.TrimSpace(part)
 		if part == "" {
 			continue
@@ -457,6 +457,32 @@ func parseStyleList(style string) ([]string, map[string]string) {
 		}
 	}
 	return keys, vals
+}
+
+// splitStyleDeclarations splits a style value at the semicolons that end a
+// declaration. A semicolon inside parentheses or quotes belongs to the value,
+// as in url(data:image/png;base64,...) or content: ";".
+func splitStyleDeclarations(style string) []string {
+	var parts []string
+	depth, quote, start := 0, byte(0), 0
+	for i := 0; i < len(style); i++ {
+		switch c := style[i]; {
+		case quote != 0:
+			if c == quote {
+				quote = 0
+			}
+		case c == '"' || c == '\'':
+			quote = c
+		case c == '(':
+			depth++
+		case c == ')' && depth > 0:
+			depth--
+		case c == ';' && depth == 0:
+			parts = append(parts, style[start:i])
+			start = i + 1
+		}
+	}
+	return append(parts, style[start:])
 }
 
 // parseStyleMap parses a CSS style string into a map of properties to values.
